@@ -19,6 +19,8 @@ def instantiate(templates):
 
 
 # spellings of ONE expression that differ only in white space - one of them with a no-break space, which is no white space of the grammar (always SyntaxError)
+# expressions that are a single operand: the returned tree holds nothing but tokens
+CONDFLAT = {"s1": "[{a}]", "s2": "[{a}P0..1]", "s3": "[ {c}P ]"}
 CONDWS = {"s1": "[{a}] U [{b}]", "s2": "[{a}]\u00a0U\u00a0[{b}]", "s3": "[{a}]\tU  [{b}]"}
 
 
@@ -27,6 +29,7 @@ def parsers():
     import ahbicht.expressions.condition_expression_parser as cp
     return {"cond": (cp.parse_condition_expression_to_tree, cp._parser, COND, "[%d]"),
             "condws": (cp.parse_condition_expression_to_tree, cp._parser, CONDWS, "[%d]"),
+            "condflat": (cp.parse_condition_expression_to_tree, cp._parser, CONDFLAT, "[%d]"),
             "ahb": (ap.parse_ahb_expression_to_single_requirement_indicator_expressions, ap._parser, AHBS, "M[%d]"),
             # the condition parser reached THROUGH the expression resolver: the resolver embeds trees of the cached condition parser in its result;
             # callers edit that embedded tree; every later parse (directly and through the resolver) must still be pristine
@@ -90,7 +93,7 @@ def raw_parser(which):
     import lark
     import ahbicht.expressions.ahb_expression_parser as ap
     import ahbicht.expressions.condition_expression_parser as cp
-    mod, start = (cp, "expression") if which in ("cond", "condws", "via_resolver") else (ap, "ahb_expression")
+    mod, start = (cp, "expression") if which in ("cond", "condws", "condflat", "via_resolver") else (ap, "ahb_expression")
     p = getattr(mod, "_parser", None)
     return p if p is not None else lark.Lark(mod.GRAMMAR, start=start)
 
@@ -157,7 +160,7 @@ def replay_history(which, hist, acc):
 def cache_maxsize(which):
     import ahbicht.expressions.ahb_expression_parser as ap
     import ahbicht.expressions.condition_expression_parser as cp
-    mod, name = (cp, "parse_condition_expression_to_tree") if which in ("cond", "condws", "via_resolver") else (ap, "parse_ahb_expression_to_single_requirement_indicator_expressions")
+    mod, name = (cp, "parse_condition_expression_to_tree") if which in ("cond", "condws", "condflat", "via_resolver") else (ap, "parse_ahb_expression_to_single_requirement_indicator_expressions")
     fn = getattr(mod, name)
     # tree_copy's closure holds the lru_cache'd function; otherwise look for lru_cache'd functions in the module
     cands = [c.cell_contents for c in (fn.__closure__ or ())] + list(vars(mod).values())
@@ -182,7 +185,7 @@ def _worker(args):
             if acc["floods"] >= flood_budget or rng.random() > 0.02:
                 continue
             acc["floods"] += 1
-        for which in ("cond", "ahb", "condws", "via_resolver"):
+        for which in ("cond", "ahb", "condws", "condflat", "via_resolver"):
             try:
                 replay_history(which, hist, acc)
             except MachineryError:
@@ -265,7 +268,7 @@ def run():
 def replay(case):
     import ahb
     ahb.configure()
-    if case.get("which") in ("cond", "ahb", "condws", "via_resolver"):
+    if case.get("which") in ("cond", "ahb", "condws", "condflat", "via_resolver"):
         which = case["which"]
         acc = {"viol": [], "n": 0}
         replay_history(which, [tuple(a) for a in case["history"]], acc)
